@@ -33,8 +33,8 @@ KNOWN = {
     # pycdlib computes it over the 2 or 3 used entries only.
     'gpt-crc': (lambda c: c.get('hybrid') in ('efi', 'mac'), lambda c, p: True),
     # ECMA-119 6.8.2.2 / 9.1: '..' describes the parent directory; pycdlib leaves its data length at
-    # 2048 when the parent directory has grown beyond one sector (/MANY/SUB/.. in every test image).
-    'dotdot-wrong': (lambda c: True, _dotdot_len_only),
+    # 2048 when the parent directory has grown beyond one sector (/MANY/SUB/.. in the 'bigsub' test images).
+    'dotdot-wrong': (lambda c: bool(c.get('bigsub')), _dotdot_len_only),
 }
 
 VERBOSE = '-v' in sys.argv
@@ -92,8 +92,10 @@ def make_model(c):
     add('dir', ['many'])
     for i in range(60):
         add('file', ['many', 'f%02d.txt' % i], blob('many%d' % i, (i * 37) % 700))
-    add('dir', ['many', 'sub'])
-    add('file', ['many', 'sub', 'x'], b'xx')
+    if c.get('bigsub'):
+        # a subdirectory of a multi-sector directory (its '..' is a known pycdlib deviation, see KNOWN)
+        add('dir', ['many', 'sub'])
+        add('file', ['many', 'sub', 'x'], b'xx')
     # nested directories, added level by level
     if rr or level == 4:
         depth = 9
@@ -463,9 +465,15 @@ def mutations(img, im):
     end = last.dr_offset + last.dr_len
     if end % 2048:
         yield 'padding', 'dir-padding-nonzero', put(img, end + 1, b'\x01')
-    yield 'record crosses sector', 'dr-crosses-sector', put(img, last.dr_offset, b'\xff')
-    yield 'dir cycle', 'dir-cycle', put(img, many.children[-1].dr_offset if False else [c for c in many.children if c.is_dir][0].dr_offset + 2,
-                                        struct.pack('<I', many.extents[0][0]) + struct.pack('>I', many.extents[0][0]))
+    for x, y in zip(many.children, many.children[1:]):
+        if x.dr_offset // 2048 != y.dr_offset // 2048:      # x is the last record of its sector
+            room = 2048 - x.dr_offset % 2048
+            if room + 2 <= 255:
+                yield 'record crosses sector', 'dr-crosses-sector', put(img, x.dr_offset, bytes([room + 2]))
+            break
+    d1 = [c for c in root.children if c.name == b'D1'][0]
+    d2 = [c for c in d1.children if c.name == b'D2'][0]
+    yield 'dir cycle', 'dir-cycle', put(img, d2.dr_offset + 2, struct.pack('<I', d1.extents[0][0]) + struct.pack('>I', d1.extents[0][0]))
     L = im.path_tables['pvd']['L']
     M = im.path_tables['pvd']['M']
     yield 'ptable L extent', 'ptable-LM-differ', put(img, L[2]['offset'] + 2, struct.pack('<I', 77))
@@ -504,8 +512,6 @@ def mutations(img, im):
         yield 'rr entry length 0', 'rr-entry-overrun', put(img, su + 2, b'\x00')
         yield 'rr entry too long', 'rr-entry-overrun', put(img, su + 2, b'\xf0')
         yield 'rr PX BE', 'rr-both-endian-mismatch', put(img, px + 8, b'\x12\x34\x56\x78')
-        yield 'rr shorter last entry', 'rr-len-mismatch', put(img, px + 2, bytes([img[px + 2] - 2])) if False else \
-            ('rr record longer', 'rr-len-mismatch', None)
         lng = [c for c in root.children if c.name == b'LONG'][0]
         l0, l1 = lng.children[0], lng.children[1]
 
@@ -552,7 +558,7 @@ def mutations(img, im):
         yield 'mbr signature', 'mbr-signature', put(img, 510, b'\x55\xab')
     u = im.udf
     if u is not None:
-        yield 'udf vrs', 'udf-vrs', put(img, u['vrs'][1][1] * 2048 + 1, b'NSR09'.replace(b'NSR09', b'BOOT2'))
+        yield 'udf vrs', 'udf-vrs', put(img, u['vrs'][1][1] * 2048 + 1, b'BOOT2')
         yield 'udf anchor 256', 'udf-anchor-missing', put(img, 256 * 2048, b'\x00' * 16)
         last = (im.pvd['space_size'] - 1) * 2048
         yield 'udf anchor last', 'udf-anchor-missing', put(img, last, b'\x00' * 16)
@@ -562,8 +568,6 @@ def mutations(img, im):
         m = put(img, o + 12, struct.pack('<I', 999))
         m = put(m, o + 4, bytes([(sum(m[o:o + 16]) - m[o + 4]) & 0xff]))
         yield 'udf tag location', 'udf-tag-location', m
-        for seq in (u['main_vds_extent'][0], u['reserve_vds_extent'][0]):
-            pass
         m = img
         for base in (u['main_vds_extent'][0], u['reserve_vds_extent'][0]):
             o = (base + u['partition']['sector'] - u['main_vds_extent'][0]) * 2048
@@ -644,6 +648,7 @@ def combos():
         c = {'interchange_level': level, 'joliet': joliet, 'rock_ridge': rr, 'udf': udf, 'xa': xa}
         c['hybrid'] = (None, 'plain', None, 'efi', None, None, 'mac', None)[i % 8]
         c['hardlink'] = i % 3 == 0
+        c['bigsub'] = i % 2 == 0
         i += 1
         out.append(c)
     if QUICK:
@@ -652,8 +657,8 @@ def combos():
 
 
 def label(c):
-    return 'L%d jol=%s rr=%s udf=%s xa=%d hy=%s hl=%d' % (c['interchange_level'], c['joliet'], c['rock_ridge'], c['udf'],
-                                                        c['xa'], c['hybrid'], c['hardlink'])
+    return 'L%d jol=%s rr=%s udf=%s xa=%d hy=%s hl=%d sub=%d' % (c['interchange_level'], c['joliet'], c['rock_ridge'], c['udf'],
+                                                               c['xa'], c['hybrid'], c['hardlink'], c['bigsub'])
 
 
 def main():
@@ -690,7 +695,7 @@ def main():
         if VERBOSE:
             print('ok  %-60s %7d bytes %4d segments' % (label(c), len(img), len(im.segments)))
         # mutation + fuzz tests on a spread of combos
-        if idx % 8 in (3, 6) or (c['rock_ridge'] and c['joliet'] and c['udf'] and c['interchange_level'] == 3):
+        if not accepted and (idx % 6 == 1 or (c['rock_ridge'] and c['joliet'] and c['udf'] and c['interchange_level'] == 3)):
             mutated += run_mutations(img, im, label(c))
             ok, bad = run_fuzz(img, 15 if QUICK else 40, idx)
             fuzz[0] += ok
